@@ -19,6 +19,7 @@ import Gotree.Lemmas.C16Doc
 import Gotree.Lemmas.C16Surj2
 import Gotree.Lemmas.C16Surj3
 import Gotree.Lemmas.C16Depth
+import Gotree.Lemmas.C16Cli
 
 namespace Gotree.C16
 open Gotree
@@ -240,6 +241,16 @@ theorem star_shape (n : Nat) (h : 2 ≤ n) :
       o.t.tipNames.Perm (tipNamesUpTo n) ∧ lensOk o.t = true ∧ indexReady o = true := by
   obtain ⟨o, h1, h2, h3, h4, h5⟩ := star_ok n h
   exact ⟨o, h1, h5, h2, h3, h4⟩
+
+/-- the star written by `gotree generate startree` (every branch length redrawn with Exp, in
+    `Edges()` order): with non-negative Exp values it passes the oracle predicate — star shape,
+    names `Tip0 … Tip(n-1)`, lengths ≥ 0 — and its index is ready -/
+theorem starCli_ok (n : Nat) (lens : List Rat) (h2 : 2 ≤ n) (hl : lensNonneg lens = true) :
+    ∃ o, starCli (n : Int) lens = .ok o ∧ genTreeOK2 .star n false o.t = true ∧ indexReady o = true :=
+  starCli_ok_lemma n lens h2 hl
+
+theorem starCli_rejects (n : Int) (lens : List Rat) (h : n < 2) : (starCli n lens).isErr = true := by
+  simp [starCli, h, Res.isErr]
 
 /-! ### ★ the enumeration -/
 
